@@ -285,6 +285,8 @@ def _ref_eval(t, env, memo) -> R:
         q = Fraction(env[t[1]])
         return R("ok", real=q, dy=small_dyadic(q), fx=q)
     if tag == "const":
+        if isinstance(t[1], float) and not math.isfinite(t[1]):
+            return R("range", why="non-finite constant (an overflowed fold)")
         q = Fraction(t[1])
         bad = _exact_or_range(q, True)
         if bad:
